@@ -188,9 +188,13 @@ def handle (line : String) : String :=
     let nf := nflag.toNat!
     let flags := toPs (xs.extract 0 (2 * nf))
     let ring := toPs (xs.extract (2 * nf) xs.size)
-    match cleanupNewRing ring (o == "1") (fun p => flags.contains p) with
-    | .ok s => s!"ok O{showRings s.outers} I{showRings s.inners} PL{showRings s.pointsAndLines}"
-    | .error e => "panic " ++ e
+    let sh (r : Except String Split) : String := match r with
+      | .ok s => s!"ok O{showRings s.outers} I{showRings s.inners} PL{showRings s.pointsAndLines}"
+      | .error e => "panic " ++ e
+    -- the functional form (the one the theorems are about) and the transcription must agree; the harness compares the answer with the real code
+    let a := sh (cleanupNewRingF ring.toList (o == "1") (fun p => flags.contains p))
+    let b := sh (cleanupNewRing ring (o == "1") (fun p => flags.contains p))
+    if a == b || (a.startsWith "panic" && b.startsWith "panic") then a else s!"MODELS-DISAGREE functional={a} reference={b}"
   | "snap" :: rest => snapOp rest 0
   | "chains" :: rest => snapOp rest 1
   | "snapref" :: rest => snapOp rest 2
